@@ -41,4 +41,49 @@ def fill (n seed : Nat) : Array UInt8 := Id.run do
     a := a.push (i * 131 + seed * 7 + 13).toUInt8
   a
 
+/-! ## content generator shared with the Go harness (`k.seed.len`) -/
+
+def smNext (s : UInt64) : UInt64 × UInt64 :=
+  let s := s + 0x9E3779B97F4A7C15
+  let z := s
+  let z := (z ^^^ (z >>> 30)) * 0xBF58476D1CE4E5B9
+  let z := (z ^^^ (z >>> 27)) * 0x94D049BB133111EB
+  (s, z ^^^ (z >>> 31))
+
+/-- `n` pseudo-random bytes: 8 per draw, little-endian (same as `Rng.Bytes` in Go) -/
+def rndBytes (seed : Nat) (n : Nat) : Array UInt8 := Id.run do
+  let mut s : UInt64 := seed.toUInt64 * 0x9E3779B97F4A7C15 + 0x1234567
+  let mut out : Array UInt8 := Array.mkEmpty n
+  let mut i := 0
+  while i < n do
+    let (s', x) := smNext s
+    s := s'
+    for j in [0:8] do
+      if i + j < n then out := out.push (x >>> (8 * j).toUInt64).toUInt8
+    i := i + 8
+  out
+
+def genContent (k seed n : Nat) : Array UInt8 :=
+  match k with
+  | 0 => rndBytes seed n
+  | 1 => (rndBytes seed n).map (fun b => (97 + b.toNat % (1 + seed % 4)).toUInt8)
+  | 2 => Array.replicate n (seed % 256).toUInt8
+  | 3 =>
+    let p := 1 + seed % 40
+    let pat := rndBytes seed p
+    Array.ofFn (n := n) (fun i => pat[i.val % p]!)
+  | 4 =>
+    let r := rndBytes seed n
+    r.map (fun b => if b.toNat % 50 == 0 then b else 0)
+  | _ =>
+    let r := rndBytes seed n
+    Array.ofFn (n := n) (fun i => if i.val < n / 2 then (i.val % 7).toUInt8 else r[i.val]!)
+
+/-- data token: `k.seed.len` or `x<hex>` -/
+def parseData (t : String) : Array UInt8 :=
+  if t.startsWith "x" then parseHex (t.drop 1).toString else
+  match t.splitOn "." with
+  | [k, s, n] => genContent k.toNat! s.toNat! n.toNat!
+  | _ => #[]
+
 end Lz4V.Util
